@@ -25,6 +25,8 @@ def components():
     for nm in ("syndrome-hamming", "bruteforce-hamming", "bm-bch15_7", "reed-rm13", "syndrome-golay-skip", "wagner-spc4", "bp-tree", "minsum-tree", "sc-polar8_4", "polarbp-polar8_4", "softrm-rm13", "hamming-inverse"):
         if "skip" not in nm:
             out.append(("decoder", nm))
+            if nm.split("-")[0] in ("syndrome", "bruteforce", "bm", "reed", "wagner"):
+                out.append(("decoder-errors", nm))       # (message, error pattern) returned with return_errors=True
     for nm in ("bpsk", "qpsk", "psk8", "qam16", "pam4", "qam64"):
         out.append(("modulator", nm))
         out.append(("demod-hard", nm))
@@ -99,7 +101,7 @@ def build(kind, nm):
         w[0] = 1 - w[0]
         words.append(w)
         return (lambda x: enc.inverse_encode(x)[0]), words, n, True
-    if kind == "decoder":
+    if kind in ("decoder", "decoder-errors"):
         soft = nm.split("-")[0] in ("wagner", "bp", "minsum", "sc", "polarbp", "softrm")
         if nm.endswith("hamming") or nm == "hamming-inverse":
             enc = E.HammingCodeEncoder(3)
@@ -120,6 +122,10 @@ def build(kind, nm):
                "minsum": lambda: D.MinSumLDPCDecoder(enc, bp_iters=8), "sc": lambda: D.SuccessiveCancellationDecoder(enc), "polarbp": lambda: D.BeliefPropagationPolarDecoder(enc, bp_iters=6),
                "softrm": lambda: D.ReedMullerDecoder(enc, input_type="soft"), "hamming": lambda: None}[head]()
         f = (lambda x: dec(x)) if dec is not None else (lambda x: enc.inverse_encode(x)[0])
+        if kind == "decoder-errors":
+            def f(x, dec=dec):
+                m, e = dec(x, return_errors=True)
+                return torch.cat([m.to(torch.float32), e.to(torch.float32)], dim=-1)
         ms = [torch.tensor(m, dtype=f32) for m in ([0] * k, [1] * k, [1] + [0] * (k - 1), [i % 2 for i in range(k)])]
         cw = [enc(m.unsqueeze(0))[0] for m in ms]
         pool = [cw[0], cw[1]]
@@ -188,7 +194,7 @@ def execute(p, res):
     kind, nm = p["kind"], p["name"]
     comp = f"{kind}:{nm}"
     f, pool, nin, exact = build(kind, nm)
-    tol = 1e-5 if (kind == "decoder" or kind == "constraint") else 1e-6
+    tol = 1e-5 if (kind in ("decoder", "decoder-errors") or kind == "constraint") else 1e-6
     is_2d_member = pool[0].dim() == 2
     v = lambda layout, clause, d, foc=None: res.viol(comp, layout, clause, d, foc)  # noqa: E731
 
@@ -257,7 +263,7 @@ def execute(p, res):
                 break
     # (B, b*n) several blocks per row: agree with per-block evaluation or raise (block codes / modems concatenate along the last dim)
     if not is_2d_member:
-        if kind in ("encoder", "inverse", "decoder", "modulator", "demod-hard", "demod-soft"):
+        if kind in ("encoder", "inverse", "decoder", "modulator", "demod-hard", "demod-soft"):   # (not decoder-errors: two concatenated outputs)
             for b in (2, 3):
                 for sel in list(product(range(len(pool)), repeat=b))[::3]:
                     X = torch.cat([pool[i] for i in sel]).unsqueeze(0)
